@@ -241,6 +241,20 @@ class Gen:
         r = self.r
         ret = self.anytype()
         params = [Var("p%d" % k, self.anytype()) for k in range(r.randint(1, 4))]
+        if self.cfg.get("many_params", True) and r.random() < 0.25:
+            # more integer parameters than argument registers: some are passed on the stack
+            n = r.randint(7, 10)
+            wide = [TYPES[SI], TYPES[UI], TYPES[SL], TYPES[UL], TYPES[SLL], TYPES[ULL]]
+            params = []
+            for k in range(n):
+                if k >= 6 and not self.cfg.get("narrow_stack_args", False):
+                    # char/short stack arguments hit NotImplementedError in the x86-64 backend
+                    # (open finding of C40/C29); int and wider are generated
+                    t = r.choice(wide)
+                else:
+                    t = self.anytype()
+                params.append(Var("p%d" % k, t))
+            self.tag("stack-passed-arguments")
         rec = self.cfg["recursion"] and r.random() < 0.2
         if rec:
             params[0] = Var("p0", T_INT)
